@@ -1,5 +1,5 @@
 """C03: level-triggered cancellation -- nothing stays blocked in a cancelled scope (scope_tree.scn, clauses C03:*)."""
-from symx.harness import scope_tree
+from symx.harness import scope_tree, tg_scn
 from symx.vloop import STUBS as LOOP_STUBS
 
 NAME = "c03_level"
@@ -8,7 +8,7 @@ STUBS = LOOP_STUBS
 ASSUMPTIONS = ["program: nested scopes, each level op(pre) ; inner ; op(post) with op = anyio.sleep(w), w symbolic in [0,T]; "
                "'small bounded number of cycles' = %d loop cycles" % scope_tree.K_CYCLES]
 OUTSIDE = ["nesting depth > 3, more than two environment cancels / one shield toggle", "uvloop, trio"]
-MUST_REACH = ["op-cancelled-while-blocked", "op-cancelled-at-entry", "op-completed-behind-shield", "redelivered-after-swallow", "scope-absorbed-own-cancel", "cancel-passed-through-inner-scope"]
+MUST_REACH = ["op-cancelled-while-blocked", "op-cancelled-at-entry", "op-completed-behind-shield", "redelivered-after-swallow", "scope-absorbed-own-cancel", "cancel-passed-through-inner-scope", "spawn-into-cancelled-scope-from-shielded-host"]
 
 
 def units(tier):
@@ -38,4 +38,9 @@ def units(tier):
         add("D=3 cancel=2 cancel2=0", D=3, cancel=2, cancel2=0)
         add("D=2 cancel=0 eager child", D=2, cancel=0, in_child=True, eager=True)
         add("D=3 cancel=1 toggle-on", D=3, cancel=1, toggle=(2, True))
+    for env in (("group",), ("outer",)):
+        us.append({"name": "tg shielded-spawn env=%s" % env[0], "fn": tg_scn.scn, "budget_s": B,
+                   "params": {"props": [PROP], "children": [], "body": "shielded-spawn", "env": env, "T": 2, "J": 1}})
+    us.append({"name": "tg shielded-spawn env=group with sibling", "fn": tg_scn.scn, "budget_s": B,
+               "params": {"props": [PROP], "children": [("R", "soon")], "body": "shielded-spawn", "env": ("group",), "T": 1, "J": 1}})
     return us
